@@ -4,9 +4,16 @@
 
 package dpop
 
+// "not a private key" is answered only after the key failed to decode as an RSA, an ECDSA and an
+// Ed25519 private key (the three private key kinds of the supported algorithms).
 //@ func jwkIsPrivateKey
 //@   prop C17 C03
 //@   pure
+//@   ensures [all-private-key-kinds-probed] !result ==>
+//@        did(call (jwk.Key).Raw #1) && !isNilIface(ret(call (jwk.Key).Raw #1)) && typeOf(arg(call (jwk.Key).Raw #1, 1)) == *rsa.PrivateKey
+//@     && did(call (jwk.Key).Raw #2) && !isNilIface(ret(call (jwk.Key).Raw #2)) && typeOf(arg(call (jwk.Key).Raw #2, 1)) == *ecdsa.PrivateKey
+//@     && did(call (jwk.Key).Raw #3) && !isNilIface(ret(call (jwk.Key).Raw #3)) && typeOf(arg(call (jwk.Key).Raw #3, 1)) == *ed25519.PrivateKey
+//@     && arg(call (jwk.Key).Raw #1, 0) == jwk && arg(call (jwk.Key).Raw #2, 0) == jwk && arg(call (jwk.Key).Raw #3, 0) == jwk
 
 //@ func Parse
 //@   prop C17 C03
